@@ -660,6 +660,13 @@ msm_weights_harness!(
     msm_serial_zp_q16777213_n3 = (F16777213, 3, 27), msm_serial_zp_q16777213_n4 = (F16777213, 4, 11)
 );
 
+/// end-to-end anchor of the split: same as `msm_serial_zp_q163_n1` with the REAL `get_booth_index` inside (no stand-in)
+#[cfg_attr(kani, kani::proof)]
+#[cfg_attr(kani, kani::unwind(11))]
+pub fn msm_serial_real_booth_q163_n1() {
+    msm_serial_integer_weights::<F163, 1>()
+}
+
 /// N independent formal points (free module of rank N over the scalar field S)
 fn msm_serial_generic_points<S: ToyScalar, const N: usize>() {
     let mut bases = [GA::new(Lin::<S, N>::id()); N];
